@@ -3,7 +3,7 @@
     (TRUSTED: distinct lists give independent outputs).  What is proved is what the code is responsible
     for: which data reach the oracle, in which order and framing.  Statements only. *)
 From Coq Require Import List Arith NArith Bool.
-From BP Require Import Model.Codec Model.Transcript Model.Nonce Proofs.TranscriptP Proofs.SameLogP.
+From BP Require Import Model.Codec Model.Transcript Model.Nonce Proofs.TranscriptP Proofs.SameLogP Crypto.Strobe Proofs.StrobeP.
 Import ListNotations.
 Open Scope N_scope.
 
@@ -64,6 +64,16 @@ Print Assumptions C04_verifier_ops_split.
 Theorem C04_prover_errs_iff_verifier_errs : forall s seeded p w, Nonce.prover_ops s seeded p w = None <-> verifier_ops s p = None.
 Proof. exact prover_errs_iff_verifier_errs. Qed.
 Print Assumptions C04_prover_errs_iff_verifier_errs.
+
+(** a challenge is squeezed after ONE meta-AD operation over [label ++ LE32(output length)] on the state left by everything absorbed before
+    (Gallina STROBE-128 / Merlin, Crypto/Strobe.v; replayed against the real merlin's log by this check) *)
+Theorem C04_merlin_challenge_framed : forall label n s, t_challenge label n s = prf n (meta_ad (label ++ le32 n) false s).
+Proof. exact t_challenge_framed. Qed.
+Print Assumptions C04_merlin_challenge_framed.
+
+Theorem C04_merlin_rekey_framed : forall label w s, r_rekey label w s = key w (meta_ad (label ++ le32 (List.length w)) false s).
+Proof. exact r_rekey_framed. Qed.
+Print Assumptions C04_merlin_rekey_framed.
 
 Example C04_ex : exists l, verifier_ops (mkTstmt 8 1 5 [6] [7; 8] [None; Some 3]) (mkProof 1 [9] 10 11 12 13 14 [15] [16]) = Some l.
 Proof. eexists. reflexivity. Qed.
